@@ -34,6 +34,7 @@ type zzC12ClassDef struct {
 	supers []int
 	slot   [2]zzC12SlotDef
 	acc    bool // every present slot gets :reader, :writer and :accessor
+	ghost  int  // 0 none; 1 / 2: a superclass name that is never defined is written last / first
 }
 
 type zzC12Model struct {
@@ -44,6 +45,7 @@ type zzC12Model struct {
 	r     int             // redefined class or -1
 	rq    int             // redefinition position selector
 	meth  int             // bit k: a method of the generic function who is specialised on class k
+	bef   int             // bit k: a :before method of who on class k pushes k's name on a trace
 	names []string
 }
 
@@ -98,6 +100,7 @@ func zzC12Decode(n, shape, prof, redef, opts int) *zzC12Model {
 	m := zzC12Model{n: n, r: -1}
 	acc := opts & 1
 	m.meth = (opts >> 1) & (1<<n - 1)
+	m.bef = (opts >> (1 + n)) & (1<<n - 1)
 	m.pfx = "zk" + strconv.Itoa(n) + "x" + strconv.Itoa(shape) + "x" + strconv.Itoa(prof) + "x" + strconv.Itoa(redef+1) + "x" + strconv.Itoa(opts)
 	for i := 0; i < n; i++ {
 		cnt := zzC12SuperCount(n, i)
@@ -116,6 +119,7 @@ func zzC12Decode(n, shape, prof, redef, opts int) *zzC12Model {
 		redef /= cnt * 49
 		m.rq = redef % n
 		m.orig = m.defs[m.r]
+		m.orig.ghost = (redef / n) % 3
 		m.defs[m.r] = nd
 	}
 	return &m
@@ -139,8 +143,14 @@ func zzC12Quote(name string) slip.Object {
 // form builds the defclass form of class i from a written definition.
 func (m *zzC12Model) form(i int, cd *zzC12ClassDef) slip.Object {
 	supers := slip.List{}
+	if cd.ghost == 2 {
+		supers = append(supers, slip.Symbol(m.names[i]+"-ghost"))
+	}
 	for _, j := range cd.supers {
 		supers = append(supers, slip.Symbol(m.names[j]))
+	}
+	if cd.ghost == 1 {
+		supers = append(supers, slip.Symbol(m.names[i]+"-ghost"))
 	}
 	specs := slip.List{}
 	for s := 0; s < 2; s++ {
@@ -293,7 +303,7 @@ func zzC12Perm(n, p int) []int {
 // zzC12Closed: is class c defined together with all its transitive
 // superclasses, given the set of defined classes and the definitions in force.
 func zzC12Closed(defs []zzC12ClassDef, defined []bool, c int) bool {
-	if !defined[c] {
+	if !defined[c] || defs[c].ghost != 0 {
 		return false
 	}
 	for _, d := range defs[c].supers {
@@ -610,11 +620,42 @@ func (m *zzC12Model) checkAccess(scope *slip.Scope, c int, prec []int) {
 func (m *zzC12Model) checkDispatch(scope *slip.Scope, who string, c int, prec []int) {
 	out := zzC12Eval(scope, slip.List{slip.Symbol("make-instance"), zzC12Quote(m.names[c])})
 	vrt.Assert(out.class == 0, "make-instance returns")
+	tv := slip.Symbol(who + "-trace")
+	if m.bef != 0 {
+		clr := zzC12Eval(scope, slip.List{slip.Symbol("setq"), tv, nil})
+		vrt.Assert(clr.class == 0, "setq returns")
+	}
 	call := zzC12Eval(scope, slip.List{slip.Symbol(who), out.val})
 	for _, p := range prec {
 		if m.meth&(1<<p) != 0 {
 			sym, ok := call.val.(slip.Symbol)
 			vrt.Assert(call.class == 0 && ok && string(sym) == m.names[p], "the most specific applicable method runs")
+			if m.bef != 0 {
+				// every class of the precedence list with a :before method ran it
+				// exactly once, most specific first (the trace is consed up)
+				var want []int
+				for _, q := range prec {
+					if m.bef&(1<<q) != 0 {
+						want = append(want, q)
+					}
+				}
+				tr := zzC12Eval(scope, tv)
+				got, _ := tr.val.(slip.List)
+				vrt.Assert(tr.class == 0 && len(got) == len(want), "each :before method of the precedence list runs exactly once")
+				for k, q := range want {
+					sym, _ := got[len(want)-1-k].(slip.Symbol)
+					vrt.Assert(string(sym) == m.names[q], ":before methods run in precedence order")
+				}
+			}
+			return
+		}
+	}
+	for _, q := range prec {
+		if m.bef&(1<<q) != 0 {
+			// only :before methods apply: slip runs them and returns nil instead of
+			// signalling (known finding C10-no-primary-runs-daemons of the
+			// dispatcher property C10); here only the absence of Go faults is required
+			vrt.Assert(call.class == 0 || call.class == 1, "no applicable primary: value or condition")
 			return
 		}
 	}
@@ -667,6 +708,19 @@ func (m *zzC12Model) run(trial int, order []int, rpos int, mode int, r2, r3 []bo
 			vrt.Assert(out.class == 0, "defmethod returns")
 		}
 	}
+	if m.bef != 0 {
+		tv := slip.Symbol(who + "-trace")
+		out := zzC12Eval(scope, slip.List{slip.Symbol("defvar"), tv, nil})
+		vrt.Assert(out.class == 0, "defvar returns")
+		for k := 0; k < m.n; k++ {
+			if m.bef&(1<<k) != 0 {
+				out = zzC12Eval(scope, slip.List{slip.Symbol("defmethod"), slip.Symbol(who), slip.Symbol(":before"),
+					slip.List{slip.List{slip.Symbol("x"), slip.Symbol(m.names[k])}},
+					slip.List{slip.Symbol("setq"), tv, slip.List{slip.Symbol("cons"), zzC12Quote(m.names[k]), tv}}})
+				vrt.Assert(out.class == 0, "defmethod :before returns")
+			}
+		}
+	}
 	if trial == 0 {
 		vrt.Reach("defined")
 	}
@@ -697,7 +751,7 @@ func (m *zzC12Model) run(trial int, order []int, rpos int, mode int, r2, r3 []bo
 		if mode == 0 {
 			m.checkAccess(scope, c, prec)
 		}
-		if mode != 1 && m.meth != 0 {
+		if mode != 1 && (m.meth != 0 || m.bef != 0) {
 			m.checkDispatch(scope, who, c, prec)
 		}
 	}
